@@ -9,7 +9,7 @@
    plus sleep), stereotype, stage count and budget, and any list of injected messages; all
    statements hold for every script. *)
 From Coq Require Import List NArith Bool.
-From DesVerif Require Import Life.Fresh Life.Model Life.Base Life.Step Life.Trace Life.Frame Life.Inert Life.Inv Life.Events Life.Restart Life.Term.
+From DesVerif Require Import Common.Fuel Life.Fresh Life.Local Life.Model Life.Base Life.Step Life.Trace Life.Frame Life.Inert Life.Inv Life.Events Life.Restart Life.Term.
 Import ListNotations.
 Open Scope N_scope.
 
@@ -142,6 +142,55 @@ Theorem C09_restart_runs_first_start_callback :
 Proof. split; [exact module_restart_single|split; [reflexivity|exact module_restart_stages]]. Qed.
 Print Assumptions C09_restart_runs_first_start_callback.
 
+(* fresh_after_restart, whole-trace form, for a module with one start-up stage.  Stated as a simulation between two
+   worlds restricted to module m ([Mrel m w w']: the two worlds agree on m's state; they may belong to two different
+   scripts -- other modules, injections --, have different event sets, buffers, other modules' states, as long as m's
+   configuration and the number of modules are the same).
+   (a) module_local: a module's records depend on its own state only.  Under the same sequence of dispatched events
+       (same times and kinds; [evs], [evs'] may carry different event sets) two worlds that agree on m produce the same
+       records of m ([mlog]: the records of the events of m, in order) -- events of other modules change nothing of m.
+   (b) loop_is_mlog: the event loop of a run is such a sequence: from any loop state on, the records of m's events in the
+       trace ([mrecords], each without the is_active sample that closes it) are the [mlog] of the events it dispatches.
+   (c) restarted_as_fresh: let m be [fresh v false] in w (the state every restart event finds it in,
+       C09_fresh_after_restart_partial) and the newly created [fresh v true] in w'.  Then the restart event in w at time
+       t writes the same records as the first start's step -- activate, at_sim_start(0), deactivate, buf_process, as in
+       the start-up sweep -- taken at time t in w'; afterwards the two worlds agree on m, so by (a) every later event
+       of m, and m's at_sim_end, writes the same records in both: the restarted incarnation cannot be told from a fresh
+       module created around the kept pieces at the restart time, in any environment that delivers the same events.
+   (d) fresh_is_mst0: with trivial kept pieces (no surviving JoinHandle, no pending next_wakeup; user struct as first
+       created) [fresh v true] is the module as first created.  The hypotheses are needed only there: next_wakeup and the
+       handles do not influence m's records at all (they influence the event set -- a stale wake-up event -- and the
+       join errors of the final error list), the user struct (incarnation counter, budget) does.
+   Not covered: modules with several stages (the restart runs them in one event, see above). *)
+Theorem C09_module_local : forall sc sc' m, cfg sc m = cfg sc' m -> nmods sc = nmods sc' ->
+  forall evs evs' w w', map fst evs = map fst evs' -> Mrel m w w' ->
+  mlog m sc w evs = mlog m sc' w' evs' /\ Mrel m (mrun sc w evs) (mrun sc' w' evs').
+Proof. intros sc sc' m Hc Hk evs evs' w w' He E. split; [apply mlog_local|apply mrun_local]; assumption. Qed.
+Print Assumptions C09_module_local.
+
+Theorem C09_loop_is_mlog : forall sc m k w now tr wf nf trf,
+  iter_nat k (loop_step sc) (w, now, tr) = inr (wf, nf, trf) ->
+  exists evs, mrecords m trf = mrecords m tr ++ mlog m sc w evs.
+Proof. exact loop_is_mlog. Qed.
+Print Assumptions C09_loop_is_mlog.
+
+Theorem C09_restarted_as_fresh : forall sc sc' m t v w w',
+  cfg sc m = cfg sc' m -> nmods sc = nmods sc' -> c_stages (cfg sc m) = 1 ->
+  w_mod w m = fresh v false -> w_mod w' m = fresh v true ->
+  let wa := fst (process sc w t (EvRestart m)) in
+  let wb := fst (around sc' t m (fun s => fst (at_sim_start (nmods sc') (cfg sc' m) t m 0 s)) w') in
+  snd (process sc w t (EvRestart m)) = snd (around sc' t m (fun s => fst (at_sim_start (nmods sc') (cfg sc' m) t m 0 s)) w') /\
+  (forall evs evs', map fst evs = map fst evs' -> mlog m sc wa evs = mlog m sc' wb evs') /\
+  (forall evs evs' tend, map fst evs = map fst evs' ->
+     e_items (snd (end_rec sc tend m (mrun sc wa evs))) = e_items (snd (end_rec sc' tend m (mrun sc' wb evs')))).
+Proof. exact restarted_as_fresh. Qed.
+Print Assumptions C09_restarted_as_fresh.
+
+Theorem C09_fresh_is_first_state : forall c v,
+  k_inc v = 0 -> k_bud v = c_bud c -> k_nw v = None -> k_hnd v = [] -> k_catch v = c_catch c -> fresh v true = mst0 c.
+Proof. exact fresh_is_mst0. Qed.
+Print Assumptions C09_fresh_is_first_state.
+
 (* shutdown_frame: consuming m's shutdown request (second half of buf_process) changes no other
    module's state -- tasks and timers included --, leaves the global slots and the error list
    alone and changes the queued events only by inserting m's restart event, every other event
@@ -223,3 +272,39 @@ Example C09_nonvacuous :
      [ICall 0 (CbTimer 0 1) 20 true; ILog 0 1 8; ITaskEnd 0 0 1 0; ISample 20 3]] /\
   r_ok (run_script ex) = true.
 Proof. vm_compute. repeat split; reflexivity. Qed.
+
+(* Non-vacuity of the whole-trace form.  Module 0 (one stage, one task) of [fx] is restarted at t = 7 (see its trace: the
+   records at 7, 9, 10 below are those of the run of [fx]); at that moment it has been reset once, has spent one unit of
+   budget and still holds the JoinHandle of its first task.  [fy] is another script around the same module (another
+   neighbour, other injections); in its initial world module 0 is replaced by the module freshly created around the
+   kept pieces.  The restart event in the one world and the start-up step at t = 7 in the other, then a message at 9
+   and the wake-up at 10 -- with different event sets left behind --, and at_sim_end write the same records. *)
+Definition fx_m0 : modcfg := {| c_catch := false; c_stages := 1; c_bud := 5; c_start := [[ALog 9]];
+  c_msg := [[ARestartIn 5]; [ALog 1; ASend false 2 0]]; c_tasks := [[ASleep 3; ALog 7]]; c_end := [ALog 30]; c_join := 0 |}.
+Definition fx_m1 : modcfg := {| c_catch := false; c_stages := 1; c_bud := 5; c_start := [[]];
+  c_msg := [[ALog 2]]; c_tasks := []; c_end := []; c_join := 0 |}.
+Definition fy_m1 : modcfg := {| c_catch := true; c_stages := 2; c_bud := 1; c_start := [[ALog 4]];
+  c_msg := [[AShutdown]]; c_tasks := [[ASleep 1]]; c_end := [ALog 5]; c_join := 1 |}.
+Definition fx : script := {| s_mods := [fx_m0; fx_m1]; s_inj := [(2, InjDeliver 0 0); (9, InjDeliver 0 1)] |}.
+Definition fy : script := {| s_mods := [fx_m0; fy_m1]; s_inj := [(1, InjDeliver 1 0)] |}.
+Definition fv : kept := {| k_inc := 1; k_bud := 4; k_nw := None; k_hnd := [(0, 0)]; k_catch := false |}.
+Definition fx_w : world := set_mod (init_world fx) 0 (fresh fv false).
+Definition fy_w : world := set_mod (init_world fy) 0 (fresh fv true).
+Definition f_evs (f : fes) : list (N * fev * fes) := [(9, EvDeliver 0 1, f); (10, EvWake 0, f)].
+
+Example C09_restarted_as_fresh_nonvacuous :
+  let e0 := {| f_tcur := 0; f_zero := []; f_rest := [] |} in
+  let wa := fst (process fx fx_w 7 (EvRestart 0)) in
+  let wb := fst (around fy 7 0 (fun s => fst (at_sim_start (nmods fy) (cfg fy 0) 7 0 0 s)) fy_w) in
+  map e_items (firstn 3 (skipn 5 (trace fx))) =
+    [[ICall 0 (CbStart 0) 7 true; ISpawn 0 0 1 false; ILog 0 0 9; ICall 0 (CbTask 0 1) 7 true; ISample 7 3];
+     [ICall 0 (CbMsg 1) 9 true; ILog 0 0 1; ISend 0 0 false 2 0; ISample 9 3];
+     [ICall 0 (CbTimer 0 1) 10 true; ILog 0 1 7; ITaskEnd 0 0 1 0; ISample 10 3]] /\
+  snd (process fx fx_w 7 (EvRestart 0)) = [ICall 0 (CbStart 0) 7 true; ISpawn 0 0 1 false; ILog 0 0 9; ICall 0 (CbTask 0 1) 7 true] /\
+  snd (around fy 7 0 (fun s => fst (at_sim_start (nmods fy) (cfg fy 0) 7 0 0 s)) fy_w) = snd (process fx fx_w 7 (EvRestart 0)) /\
+  mlog 0 fx wa (f_evs e0) = [[ICall 0 (CbMsg 1) 9 true; ILog 0 0 1; ISend 0 0 false 2 0]; [ICall 0 (CbTimer 0 1) 10 true; ILog 0 1 7; ITaskEnd 0 0 1 0]] /\
+  mlog 0 fy wb (f_evs (w_fes fy_w)) = mlog 0 fx wa (f_evs e0) /\
+  e_items (snd (end_rec fy 11 0 (mrun fy wb (f_evs (w_fes fy_w))))) = e_items (snd (end_rec fx 11 0 (mrun fx wa (f_evs e0)))) /\
+  e_items (snd (end_rec fx 11 0 (mrun fx wa (f_evs e0)))) = [ICall 0 CbEnd 11 true; ILog 0 0 30].
+Proof. vm_compute. repeat split; reflexivity. Qed.
+
